@@ -180,14 +180,15 @@ class SSHChannel(Generic[AnyStr], SSHPacketHandler):
         self._encoding = encoding
         self._errors = errors
 
+        # Keep a separate decoder for each data type, as a character
+        # can be split across packets with other types of data in between
+        self._decoders: Dict[DataType, codecs.IncrementalDecoder] = {}
+
         if encoding:
             self._encoder: Optional[codecs.IncrementalEncoder] = \
                 codecs.getincrementalencoder(encoding)(errors)
-            self._decoder: Optional[codecs.IncrementalDecoder] = \
-                codecs.getincrementaldecoder(encoding)(errors)
         else:
             self._encoder = None
-            self._decoder = None
 
     def get_recv_window(self) -> int:
         """Return the configured receive window for this channel"""
@@ -344,8 +345,8 @@ class SSHChannel(Generic[AnyStr], SSHPacketHandler):
             if self._encoding and not exc and \
                     self._recv_state in ('eof_pending', 'close_pending'):
                 try:
-                    assert self._decoder is not None
-                    self._decoder.decode(b'', True)
+                    for decoder in self._decoders.values():
+                        decoder.decode(b'', True)
                 except UnicodeDecodeError as unicode_exc:
                     raise ProtocolError(str(unicode_exc)) from None
 
@@ -376,8 +377,14 @@ class SSHChannel(Generic[AnyStr], SSHPacketHandler):
 
         if self._encoding:
             try:
-                assert self._decoder is not None
-                decoded_data = cast(AnyStr, self._decoder.decode(data))
+                decoder = self._decoders.get(datatype)
+
+                if decoder is None:
+                    decoder = codecs.getincrementaldecoder(
+                        self._encoding)(self._errors)
+                    self._decoders[datatype] = decoder
+
+                decoded_data = cast(AnyStr, decoder.decode(data))
             except UnicodeDecodeError as unicode_exc:
                 raise ProtocolError(str(unicode_exc)) from None
         else:
